@@ -331,6 +331,13 @@ class Executor:
             return self.compare(path, op, x, y, xty)
         if isinstance(x, bool) or (not self.is_conc(x) and xty.is_bool()):
             raise ExecError("bool binop " + op)
+        if op == "+" and (isinstance(x, (str, StrV)) or isinstance(y, (str, StrV))):
+            # string concatenation (error texts); symbolic strings keep their bytes
+            if isinstance(x, str) and isinstance(y, str):
+                return x + y
+            xs = x.b if isinstance(x, StrV) else tuple(x.encode("latin1"))
+            ys = y.b if isinstance(y, StrV) else tuple(y.encode("latin1"))
+            return StrV(xs + ys)
         w, s = ty.int_info()
         if type(x) is int and type(y) is int:
             if op == "+":
